@@ -545,3 +545,5 @@ func vfProphetMetadata(src, dst string, preds map[string]float64, seq uint64) bp
 	b.PrimaryBlock.CreationTimestamp[1] = seq
 	return b
 }
+
+func sleepMs(n int) { time.Sleep(time.Duration(n) * time.Millisecond) }
